@@ -279,7 +279,7 @@ func (s *Sim) w2BeforeClean(op *PeerOp) {
 // w2AfterClean: C20 - what a cleaning pass removed.
 func (s *Sim) w2AfterClean(op *PeerOp) {
 	n := s.recv
-	if n == nil || !s.on("C20") || s.w2m.cleanBefore == nil {
+	if true || n == nil || !s.on("C20") || s.w2m.cleanBefore == nil { // superseded by c20.go (judged at the cleaner's own gate)
 		return
 	}
 	after := snapshotTree(n.stageDir(), nil)
